@@ -26,9 +26,32 @@ type Recv = h3_quinn::RecvStream;
 type Bidi = h3_quinn::BidiStream<Bytes>;
 
 fn cx_run<R>(f: impl FnOnce(&mut Context<'_>) -> R) -> R {
-    let w = futures_util::task::noop_waker();
-    let mut cx = Context::from_waker(&w);
-    f(&mut cx)
+    cx_run_counted(f).0
+}
+
+struct CountingWaker(std::sync::atomic::AtomicUsize);
+impl std::task::Wake for CountingWaker {
+    fn wake(self: std::sync::Arc<Self>) {
+        self.0.fetch_add(1, std::sync::atomic::Ordering::Relaxed);
+    }
+    fn wake_by_ref(self: &std::sync::Arc<Self>) {
+        self.0.fetch_add(1, std::sync::atomic::Ordering::Relaxed);
+    }
+}
+
+/// Polls once; the second component says whether the waker was woken (or cloned, i.e. registered somewhere)
+/// during the poll. A `Pending` without either is a lost wake-up: nobody will ever poll the caller again.
+fn cx_run_counted<R>(f: impl FnOnce(&mut Context<'_>) -> R) -> (R, bool) {
+    let cw = std::sync::Arc::new(CountingWaker(std::sync::atomic::AtomicUsize::new(0)));
+    let w = std::task::Waker::from(cw.clone());
+    let before = std::sync::Arc::strong_count(&cw);
+    let r = {
+        let mut cx = Context::from_waker(&w);
+        f(&mut cx)
+    };
+    let woken = cw.0.load(std::sync::atomic::Ordering::Relaxed) > 0;
+    let registered = std::sync::Arc::strong_count(&cw) > before;
+    (r, woken || registered)
 }
 
 fn conn_class(e: &ConnectionErrorIncoming) -> String {
@@ -94,6 +117,8 @@ pub struct WOutcome {
     pub resets_at_quinn: Vec<u64>,
     pub send_ids: Vec<u64>,
     pub expected_id: u64,
+    /// a poll answered Pending although neither a wake-up nor a waker registration happened during it
+    pub lost_wakeup: bool,
     pub panic: Option<String>,
     pub panic_state: String,
     pub polls: usize,
@@ -166,8 +191,11 @@ pub fn w_execute(case: &WCase, explore: bool) -> WOutcome {
                         panic!("write does not terminate");
                     }
                     set_op("poll_send");
-                    let r = cx_run(|cx| with!(x, x.poll_send(cx, &mut buf)));
+                    let (r, woke) = cx_run_counted(|cx| with!(x, x.poll_send(cx, &mut buf)));
                     in_flight(r.is_pending());
+                    if r.is_pending() && !woke {
+                        o.lost_wakeup = true;
+                    }
                     match r {
                         Poll::Ready(Ok(_)) => {
                             if !buf.has_remaining() {
@@ -205,8 +233,11 @@ pub fn w_execute(case: &WCase, explore: bool) -> WOutcome {
                     panic!("write does not terminate");
                 }
                 set_op("poll_ready");
-                let r = cx_run(|cx| with!(x, x.poll_ready(cx)));
+                let (r, woke) = cx_run_counted(|cx| with!(x, x.poll_ready(cx)));
                 in_flight(r.is_pending());
+                if r.is_pending() && !woke {
+                    o.lost_wakeup = true;
+                }
                 match r {
                     Poll::Ready(Ok(())) => {
                         o.results.push("ok".into());
@@ -361,6 +392,9 @@ pub fn w_judge(case: &WCase, o: &WOutcome) -> Vec<(String, String)> {
             out.push(("C17:write:overlapping-send_data-accepted".into(), format!("{ctx}: a second send_data was accepted while the first write was unfinished")));
         }
     }
+    if o.lost_wakeup {
+        out.push(("C17:write:pending-without-wake-up".into(), format!("{ctx}: a write poll answered Pending although Quinn neither returned Pending nor was a waker registered or woken during the poll: the writer is never polled again and the rest of the buffer never reaches the peer")));
+    }
     if o.send_ids.iter().any(|i| *i != o.expected_id) {
         out.push(("C17:write:send-id-wrong".into(), format!("{ctx}: send_id() values {:?}, Quinn's stream id {}", o.send_ids, o.expected_id)));
     }
@@ -396,6 +430,9 @@ pub struct ROutcome {
     pub stops_seen_by_quinn: Vec<u64>,
     /// results of two more poll_data calls after the terminal answer
     pub after_terminal: Vec<String>,
+    pub lost_wakeup: bool,
+    /// what the stand-in first answered as the end of the stream ("fin", "reset:<c>", ...)
+    pub quinn_first_terminal: Option<String>,
     pub panic: Option<String>,
     pub panic_state: String,
 }
@@ -464,11 +501,19 @@ pub fn r_execute(case: &RCase, explore: bool) -> ROutcome {
         let mut terminal: Option<String> = None;
         let poll_once = |s: &mut S, o: &mut ROutcome, terminal: &mut Option<String>| {
             set_op("poll_data");
-            let r = cx_run(|cx| match s {
+            let (r, woke) = cx_run_counted(|cx| match s {
                 S::Uni(x) => x.poll_data(cx),
                 S::Bi(x) => x.poll_data(cx),
             });
             in_flight(r.is_pending());
+            if r.is_pending() && !woke {
+                // legitimate only when Quinn itself has nothing and will never have anything (stream left open)
+                let g = rlog.lock().unwrap();
+                let forever = g.pos == g.data.len() && g.end == Some(fq::RecvEnd::Open);
+                if !forever {
+                    o.lost_wakeup = true;
+                }
+            }
             match r {
                 Poll::Ready(Ok(Some(mut b))) => {
                     let v = b.copy_to_bytes(b.remaining());
@@ -536,6 +581,7 @@ pub fn r_execute(case: &RCase, explore: bool) -> ROutcome {
             }
         }
         o.stops_seen_by_quinn = rlog.lock().unwrap().stops.clone();
+        o.quinn_first_terminal = rlog.lock().unwrap().first_terminal.clone();
         o
     });
     match r {
@@ -589,6 +635,25 @@ pub fn r_judge(case: &RCase, o: &ROutcome) -> Vec<(String, String)> {
                 break;
             }
         }
+    }
+    // whatever Quinn answered as the end of the stream is what the adapter reports - also when a deferred
+    // stop_sending is applied at that very moment (its failure must not replace the outcome of the read)
+    if o.terminal != "pending" {
+        let want = match o.quinn_first_terminal.as_deref() {
+            Some("fin") | Some("none-after-stop") => Some("eof".to_string()),
+            Some(t) if t.starts_with("reset:") => Some(format!("StreamTerminated({:#x})", t[6..].parse::<u64>().unwrap_or(0))),
+            Some(t) if t.starts_with("lost:") => Some(expect_read_terminal(case.end, case.code)),
+            Some("closed-stream") => Some("Unknown".to_string()),
+            _ => None,
+        };
+        if let Some(w) = want {
+            if o.terminal != w {
+                out.push((format!("C17:read:end-of-stream-misreported:quinn={}:got={}", o.quinn_first_terminal.as_deref().unwrap_or("").split(':').next().unwrap_or(""), o.terminal), format!("{ctx}: Quinn ended the stream with {:?}; the adapter reported {} (expected {w})", o.quinn_first_terminal, o.terminal)));
+            }
+        }
+    }
+    if o.lost_wakeup {
+        out.push(("C17:read:pending-without-wake-up".into(), format!("{ctx}: poll_data answered Pending although Quinn had something to deliver and no waker was registered or woken")));
     }
     if o.ids.iter().any(|i| *i != o.expected_id) {
         out.push(("C17:read:recv-id-wrong".into(), format!("{ctx}: recv_id() values {:?}, stream id {}", o.ids, o.expected_id)));
@@ -936,7 +1001,10 @@ fn run(tier: Tier, seed: u64) -> i32 {
     }
     e_checks(&mut total);
     // conformance of the stand-in with real Quinn + the same oracle on real loopback runs
-    match real_quinn(thorough) {
+    // (when the exhaustive stand-in exploration has already found a violation the loopback runs - which may then
+    // take minutes, e.g. waiting for a write that never completes - are skipped)
+    let real = if total.violations.is_empty() { real_quinn(thorough) } else { Err("skipped: the stand-in exploration already reports a violation".into()) };
+    match real {
         Ok(v) => {
             for x in v["violations"].as_array().cloned().unwrap_or_default() {
                 total.violation(x["signature"].as_str().unwrap_or("C17:real:?").to_string(), format!("real Quinn loopback: {}", x["what"].as_str().unwrap_or("")), (0, 0), || json!({"kind":"real"}));
@@ -951,7 +1019,14 @@ fn run(tier: Tier, seed: u64) -> i32 {
             total.count("standin_facts_checked_on_real_quinn", v["standin_facts_checked"].as_u64().unwrap_or(0));
             rep.extra.insert("real_quinn_conformance".into(), v);
         }
-        Err(e) => explore::machinery_failure(&format!("real-Quinn conformance runs failed to run: {e} (not a verdict about h3)")),
+        Err(e) => {
+            if total.violations.is_empty() {
+                explore::machinery_failure(&format!("real-Quinn conformance runs failed to run: {e} (not a verdict about h3)"));
+            }
+            // the stand-in exploration has already decided: report that, and say that the loopback runs did not finish
+            eprintln!("NOTE: real-Quinn conformance runs did not finish ({e}); the violations below come from the exhaustive stand-in exploration");
+            total.count("real_quinn_runs_did_not_finish", 1);
+        }
     }
     total.count("write_cases", wcases.len() as u64);
     total.count("read_cases", rcases.len() as u64);
